@@ -335,12 +335,12 @@ RULES = [
 ]
 
 
-def multi_harness(e):
+def multi_harness(e, first_rule: int | None = None):
     from pyoak.match.pattern import MultiPatternMatcher
 
     reset_all()
     # an ordered selection of 2-3 distinct rules, and optionally an explicit `rules` order at match time
-    i = e.choice(len(RULES), "rule0")
+    i = first_rule if first_rule is not None else e.choice(len(RULES), "rule0")
     j = e.choice(len(RULES), "rule1")
     k = e.choice(len(RULES) + 1, "rule2")
     idx = [i, j] + ([k] if k < len(RULES) else [])
@@ -359,14 +359,26 @@ def multi_harness(e):
     elif explicit == "first_only":
         order = idx[:1]
         arg = [RULES[n][0] for n in order]
-    got = mpm.match(node, arg)
+    # `rules` is documented as an Iterable of names: a list, a tuple, a one-shot iterator or a
+    # generator must all mean the same order
+    kind = e.pick(["list", "tuple", "iterator", "generator", "dict-keys"], "rules_arg_type") if arg is not None else "none"
+    passed = arg
+    if kind == "tuple":
+        passed = tuple(arg)
+    elif kind == "iterator":
+        passed = iter(list(arg))
+    elif kind == "generator":
+        passed = (x for x in list(arg))
+    elif kind == "dict-keys":
+        passed = {x: None for x in arg}.keys()
+    got = mpm.match(node, passed)
     want = None
     for n in order:
         ok, caps = PR.match_tree(RULES[n][1], node, {}, CLASSES)
         if ok:
             want = (RULES[n][0], caps)
             break
-    scenario = {"rules": defs, "rules_arg": arg, "node": describe(NODES[nno]), "got": None if got is None else (got[0], sorted(got[1])), "expected": None if want is None else (want[0], sorted(want[1]))}
+    scenario = {"rules": defs, "rules_arg": arg, "rules_arg_type": kind, "node": describe(NODES[nno]), "got": None if got is None else (got[0], sorted(got[1])), "expected": None if want is None else (want[0], sorted(want[1]))}
     shared = sum(len(PR.uses_any_matcher(RULES[n][1])) for n in idx) > 1 and any(any(PR.uses_any_matcher(RULES[n][1])) for n in idx)
     pre = "any-matcher-shared:" if shared else ""
     if (got is None) != (want is None) or (got is not None and got[0] != want[0]):
@@ -374,7 +386,7 @@ def multi_harness(e):
     if got is not None:
         if set(got[1]) != set(want[1]) or any(not (got[1][c] is v or (isinstance(v, tuple) and tuple(got[1][c]) == v)) for c, v in want[1].items()):
             e.fail(pre + "multi-pattern-wrong-captures", scenario=scenario)
-    e.distinct((tuple(idx), nno, explicit))
+    e.distinct((tuple(idx), nno, explicit, kind))
     return scenario
 
 
@@ -402,7 +414,8 @@ def spec(tier: str, seed: int) -> Spec:
     fams.append(Family("multi-field", make_harness(multi), variables=var))
     fams.append(Family("string-like-values", stringlike_harness, variables="selectors: value (str subclass, str-mixin enum, int subclass, plain), regex"))
     fams.append(Family("similar-pattern-texts", similar_harness, variables="selectors: two regexes that differ in white space, two token layouts, value, entry point"))
-    fams.append(Family("multi-pattern-matcher", multi_harness, variables="selectors: ordered rule selection, rules argument, node"))
+    for r0 in range(len(RULES)):
+        fams.append(Family(f"multi-pattern-matcher-first-rule{r0}", (lambda e, _r=r0: multi_harness(e, _r)), variables="selectors: ordered rule selection, rules argument and its iterable type, node"))
     return Spec(
         families=fams,
         obligation_runners=[_x_runner],
